@@ -129,16 +129,16 @@ Fixpoint impl_from (all : list stmt) (k : nat) (l : list stmt) : list stmt :=
   end.
 Definition impl_view (ss : list stmt) : list stmt := impl_from ss 1 ss.
 
-Inductive outcome := Accepted | CycleError | RedefinitionError.
+Inductive outcome := Accepted | CycleRejected | RedefinitionRejected.
 Definition outcome_eqb (a b : outcome) : bool :=
-  match a, b with Accepted, Accepted | CycleError, CycleError | RedefinitionError, RedefinitionError => true | _, _ => false end.
+  match a, b with Accepted, Accepted | CycleRejected, CycleRejected | RedefinitionRejected, RedefinitionRejected => true | _, _ => false end.
 
 (* what the property asks for: a duplicate is the redefinition error, a cycle the cycle error, in every order *)
 Definition outcome_spec (ss : list stmt) : outcome :=
-  if redefinition_detected ss then RedefinitionError else if cycle_detected ss then CycleError else Accepted.
+  if redefinition_detected ss then RedefinitionRejected else if cycle_detected ss then CycleRejected else Accepted.
 (* what create_dag does: cycles of the last-definition graph first, overwriting afterwards *)
 Definition outcome_impl (ss : list stmt) : outcome :=
-  if cycle_detected (impl_view ss) then CycleError else if redefinition_detected ss then RedefinitionError else Accepted.
+  if cycle_detected (impl_view ss) then CycleRejected else if redefinition_detected ss then RedefinitionRejected else Accepted.
 
 (* ---------------------------------------------------------------- unknown-variable promotion (visit_Start) *)
 (* raw statement as collected by the visitor: names read as datasets, names met inside clauses that may be components *)
